@@ -421,6 +421,12 @@ class Engine:
                 if isinstance(cc[0], Bundle):
                     for (bo, bv, bn) in cc[0].parts:
                         if k + bo == off and bn == nb: return s.retype(bv, t)
+                if isinstance(cc[0], SV) and not z3.is_bool(cc[0].t) and t.k == 'int' and k <= off and off + nb <= k + cc[1] and cc[1] == 8 and nb == 4 and (off - k) in (0, 4):
+                    # half of a 64-bit integer that packs two 32-bit fields (struct returned in a register)
+                    v = cc[0]; m = 1 << 32
+                    if off == k:
+                        return SV(((v.t + (1 << 31)) % m) - (1 << 31), -(1 << 31), (1 << 31) - 1, taint=v.taint)
+                    return SV(v.t / m, v.lo // m, v.hi // m, taint=v.taint)
                 if isinstance(cc[0], int) and not isinstance(cc[0], bool) and k <= off and off + nb <= k + cc[1]:
                     raw = cc[0] & ((1 << (cc[1] * 8)) - 1)
                     v = sgn(raw >> (8 * (off - k)), nb * 8)
